@@ -27,8 +27,25 @@ type c16Ending struct {
 type c16Case struct {
 	ConnAck string      `json:"connack"` // accepted | refused | malformed | none
 	Code    int         `json:"code,omitempty"`
-	Settle  bool        `json:"settle"` // wait for Connect to return and sample a healthy connection before the endings
+	Settle  bool        `json:"settle"`          // wait for Connect to return and sample a healthy connection before the endings
+	Noise   []int       `json:"noise,omitempty"` // after the settle point: odd but harmless broker packets that must not end the connection
 	Endings []c16Ending `json:"endings"`
+}
+
+// c16NoisePackets: packets a (sloppy) broker may send that the client tolerates: none of them ends the connection,
+// so afterwards the connection is still healthy.
+var c16NoisePackets = []refPacket{
+	{Type: rtPublish, QoS: 1, ID: 0, Topic: "n/q1-id0", Payload: []byte("x")}, // packet id 0
+	{Type: rtPublish, QoS: 2, ID: 0, Topic: "n/q2-id0"},
+	{Type: rtPubRel, ID: 0},
+	{Type: rtPubAck, ID: 4242}, // nobody waits for it
+	{Type: rtPubComp, ID: 4242},
+	{Type: rtSubAck, ID: 4242, Codes: []int{0x80}},
+	{Type: rtUnsubAck, ID: 0},
+	{Type: rtPingResp},
+	{Type: rtConnAck},
+	{Type: rtPublish, QoS: 0, Topic: "n/empty"},
+	{Type: rtPublish, QoS: 1, ID: 9, Dup: true, Retain: true, Topic: "n/dup"},
 }
 
 func c16Gen(rt *rapid.T) c16Case {
@@ -37,6 +54,9 @@ func c16Gen(rt *rapid.T) c16Case {
 		c.Code = rapid.IntRange(1, 5).Draw(rt, "code")
 	}
 	c.Settle = c.ConnAck == "accepted" && rapid.Bool().Draw(rt, "settle")
+	if c.Settle {
+		c.Noise = rapid.SliceOfN(rapid.IntRange(0, len(c16NoisePackets)-1), 0, 4).Draw(rt, "noise")
+	}
 	c.Endings = rapid.SliceOfN(rapid.Custom(func(rt *rapid.T) c16Ending {
 		return c16Ending{Kind: rapid.SampledFrom([]string{"peerClose", "localClose", "malformed", "disconnect"}).Draw(rt, "kind"), Yields: rapid.IntRange(0, 6).Draw(rt, "yields")}
 	}), 1, 4).Draw(rt, "endings")
@@ -109,6 +129,26 @@ func c16Run(tb rapid.TB, c c16Case) {
 		}
 		if st := r.stateLog(); len(st) != 1 || st[0].State != StateActive {
 			fail("state callbacks on a healthy connection: %v (want exactly one Active)", st)
+		}
+		if len(c.Noise) > 0 {
+			for _, k := range c.Noise {
+				r.peer.send(c16NoisePackets[k])
+			}
+			if !r.peer.sync(20 * time.Second) {
+				// the connection ended although nothing fatal was sent: it must at least say why
+				if err := r.cli.Err(); err == nil {
+					fail("the connection stopped processing packets after harmless broker packets %v and Err() is nil", c.Noise)
+				}
+			} else {
+				if err := r.cli.Err(); err != nil {
+					fail("Err() = %v on a healthy connection (after harmless broker packets %v)", err, c.Noise)
+				}
+				select {
+				case <-r.cli.Done():
+					fail("Done() is closed on a healthy connection (after harmless broker packets %v)", c.Noise)
+				default:
+				}
+			}
 		}
 	}
 	// ---- the endings, racing
